@@ -208,3 +208,48 @@ def _map_retain(eng, st, args, dty, callee, m):
         drop = simp(z3.And(cond, z3.Not(keep)))
         eng.store(st, ref, VMap(mp.ksort, simp(z3.Store(mp.present, kb, z3.And(cond, keep))), mp.val, simp(mp.count - z3.If(drop, bv(1, 64), bv(0, 64))), mp.cap, mp.enum))
     return UNIT
+
+
+@first(r"^<(std::collections::)?HashMap<.*> as IntoIterator>::into_iter$", "HashMap::into_iter (owned) over the enumerated keys of a finite map: yields (key, value) pairs")
+def _map_into_iter(eng, st, args, dty, callee, m):
+    from values import VIter, VMap, vmap
+
+    mp = args[0]
+    if isinstance(mp, VRef):
+        mp = eng.load(st, mp)
+    if not isinstance(mp, VMap) or mp.enum is None or mp.present is None or mp.val is None:
+        raise SymError("HashMap::into_iter on a map that is not enumerable")
+    items = []
+    for (kb, kval) in mp.enum:
+        items.append((simp(z3.Select(mp.present, kb)), VStruct([kval, vmap(mp.val, lambda a, kb=kb: z3.Select(a, kb))])))
+    return VIter("condlist", items=tuple(items), pos=bv(0, 64))
+
+
+@first(r"^<.* as Iterator>::collect::<(std::collections::)?HashMap<.*>>$", "collect::<HashMap<_, _>>: a finite map holding the yielded (key, value) pairs (later pairs win)")
+def _collect_map(eng, st, args, dty, callee, m):
+    from summaries_iter import _it, drain
+    from values import VMap, vmap
+
+    items = drain(eng, st, _it(eng, st, args[0]))
+    if not items:
+        return VMap(None, None, None, bv(0, 64), None)
+    present, val, enum, ksort = None, None, [], None
+    count = bv(0, 64)
+    for c, kv in items:
+        if isinstance(kv, VRef):
+            kv = eng.load(st, kv)
+        k, v = kv.f
+        kb = key_bv(k)
+        if ksort is None:
+            ksort = kb.sort()
+            present = z3.K(ksort, z3.BoolVal(False))
+            val = vmap(v, lambda leaf: z3.K(ksort, leaf))
+        was = z3.Select(present, kb)
+        count = simp(count + z3.If(z3.And(c, z3.Not(was)), bv(1, 64), bv(0, 64)))
+        present = simp(z3.Store(present, kb, z3.Or(was, c)))
+        leaves_a, leaves_v = flatten(val), flatten(v)
+        new = [z3.If(c, z3.Store(a, kb, x), a) for a, x in zip(leaves_a, leaves_v)]
+        it = iter(new)
+        val = vmap(val, lambda a: next(it))
+        enum.append((kb, k))
+    return VMap(ksort, present, val, count, None, tuple(enum))
